@@ -1357,7 +1357,9 @@ impl<R: BufRead> Reader<R> {
     /// and a batch may also span multiple blocks.
     fn read(&mut self) -> Result<Option<RecordBatch>, AvroError> {
         'outer: while !self.finished && !self.decoder.batch_is_full() {
-            while self.block_cursor == self.block_data.len() {
+            // A block is finished when all of its records are decoded, not when its bytes
+            // are used up: records may be zero bytes long (e.g. a record of `null` fields).
+            while self.block_count == 0 {
                 let buf = self.reader.fill_buf()?;
                 if buf.is_empty() {
                     self.finished = true;
@@ -1389,7 +1391,7 @@ impl<R: BufRead> Reader<R> {
                 }
             }
             // Decode as many rows as will fit in the current batch
-            if self.block_cursor < self.block_data.len() {
+            if self.block_count > 0 {
                 let (consumed, records_decoded) = self
                     .decoder
                     .decode_block(&self.block_data[self.block_cursor..], self.block_count)?;
